@@ -58,6 +58,10 @@ ALPHAS = (-1.0, 2.0, -3.0, 0.5, 1e-9, 1e6)
 # integer-typed records next to float64: (tag, dtype, words it can hold)
 INT_ENTRIES = (('i64', np.int64, lambda w: True), ('i8', np.int8, lambda w: True),
                ('u8', np.uint8, lambda w: min(w) >= 0))
+# (tag, dtype, factor, words it can hold): alphabet value * factor is close to the largest value of the type
+SCALED_INT_ENTRIES = (('i8x50', np.int8, 50, lambda w: True), ('i16x15000', np.int16, 15000, lambda w: True),
+                      ('i32x5e8', np.int32, 5 * 10 ** 8, lambda w: True), ('u8x100', np.uint8, 100, lambda w: min(w) >= 0),
+                      ('u16x30000', np.uint16, 30000, lambda w: min(w) >= 0))
 SCRIBBLE = -7.5      # what the caller writes into a returned series before asking again
 PADS = (1, 2, 5)
 
@@ -204,7 +208,7 @@ def build(tier, seed):
                              'quad-reused-object-longer-record', 'quad-reused-object-shorter-record',
                              'quad-reused-object-int-list', 'cavdp-reused-object-longer-record',
                              'cavdp-reused-object-shorter-record', 'cavdp-reused-object-same-length',
-                             'quad-one-sample', 'quad-int8-input', 'quad-uint8-input', 'quad-tiny-scale',
+                             'quad-one-sample', 'quad-int8-input', 'quad-uint8-input', 'quad-narrow-int-near-range', 'quad-tiny-scale',
                              'quad-huge-scale', 'quad-result-overwritten', 'quad-aba-same-length-and-ends',
                              'quad-reused-object-same-length', 'quad-reused-object-after-stat-generators',
                              'cavdp-result-overwritten', 'cavdp-reused-object-after-stat-generators',
@@ -229,9 +233,9 @@ def build(tier, seed):
             'window qualifies / does not qualify',
             'a returned series belongs to the caller: overwriting it in place must not change what a later call '
             'returns (compared with a private copy of the first result, round-off tolerance)',
-            'narrow integer records (int8, uint8) are examined for the alphabet values only (|a| <= 2): on the '
-            'unchanged tree a**2 and the pairwise sums of the trapezoid rule are evaluated in the record dtype and '
-            'wrap around for larger values (reported separately)',
+            'narrow / unsigned integer records are examined with the alphabet values and with the alphabet multiplied up to the top of the '
+            'type (int8 x50, int16 x15000, int32 x5e8, uint8 x100, uint16 x30000; dt = %s): a**2 and the pairwise sums of the trapezoid '
+            'rule used to be evaluated in the record dtype and wrap around (repaired in /repo, see known_findings.txt)' % DTS[1],
             'the stat generators / lazy properties called between the steps of a history are not themselves '
             'checked here (exceptions they raise are ignored); only the measures that follow are',
             'zero padding is checked for the acceleration based quadrature measures only (Arias, CAV, int|a|)',
@@ -372,7 +376,9 @@ def run_quad(w):
     if n == 1:
         r.cls('quad-one-sample')
     a_f = np.array(w, dtype=float)
-    entries = [('f64', a_f)] + [(tag, np.array(w, dtype=dt_)) for tag, dt_, fits in INT_ENTRIES if fits(w)]
+    entries = [('f64', a_f, 1)] + [(tag, np.array(w, dtype=dt_), 1) for tag, dt_, fits in INT_ENTRIES if fits(w)]
+    # the same pattern as digitiser counts near the top of a narrow / unsigned integer type: squares and pairwise sums leave the type
+    entries_scaled = [(tag, (np.array(w, dtype=np.int64) * k).astype(dt_), k) for tag, dt_, k, fits in SCALED_INT_ENTRIES if fits(w)]
     comp = _companion(w)
     ends_zero = (w[-1] == 0)
     for dt in DTS:
@@ -390,10 +396,10 @@ def run_quad(w):
         base = {}
         first = {}
         sig_f = None
-        for entry, arr_in in entries:
+        for entry, arr_in, k_in in entries + (entries_scaled if dt == DTS[1] else []):
             r.states += 1
             if entry != 'f64':
-                r.cls({'i64': 'quad-int-input', 'i8': 'quad-int8-input', 'u8': 'quad-uint8-input'}[entry])
+                r.cls({'i64': 'quad-int-input', 'i8': 'quad-int8-input', 'u8': 'quad-uint8-input'}.get(entry, 'quad-narrow-int-near-range'))
             ok, sig = r.call('construct', {'w': w, 'dt': dt, 'entry': entry}, eqsig.AccSignal, arr_in.copy(), dt)
             if not ok:
                 continue
@@ -405,7 +411,7 @@ def run_quad(w):
                 arr = _series_ok(r, name, sub, out, n)
                 if arr is None:
                     continue
-                want = reff[name]
+                want = reff[name] * float(k_in) ** deg
                 peak = float(np.max(np.abs(want)))
                 r.expect_close('running.' + name, sub, arr, want, rtol=RTOL, scale=peak)
                 r.expect_close('final.' + name, sub, arr[-1], want[-1], rtol=RTOL, scale=peak)
